@@ -389,6 +389,38 @@ func init() {
 			return &t_api.Request{Kind: t_api.HeartbeatTasks, HeartbeatTasks: &t_api.HeartbeatTasksRequest{ProcessId: pick(r, []string{"p1", "p2"})}}
 		}
 	}
+	// ---- dispatch (C08 / C19): many roots, dispatch cycles that hand off several tasks at once, every hand-off outcome ----
+	families["dispatch"] = &family{
+		name: "dispatch", bgs: []string{"EnqueueTasks", "TimeoutTasks", "TimeoutPromises"}, requests: 18, maxSteps: 50, fault: 0.04,
+		timeStep: smallStep, fifo: true, senderOK: 0.5,
+		config: func(r *rng) *system.Config {
+			c := baseConfig(r)
+			c.TaskBatchSize = 2 + r.intn(3)
+			return c
+		},
+		gen: func(w *world) *t_api.Request {
+			r := w.r
+			id := pick(r, []string{"a", "b", "c", "d", "e", "f"})
+			switch x := r.intn(20); {
+			case x < 9:
+				return &t_api.Request{Kind: t_api.CreatePromise, CreatePromise: &t_api.CreatePromiseRequest{
+					Id: id, Param: promise.Value{Data: smallData(r)}, Timeout: w.now + 40 + int64(r.intn(40)),
+					Tags: map[string]string{"resonate:invoke": pick(r, []string{"default", "poll://g/i", "http://h/x"})}}}
+			case x < 12:
+				root := pick(r, []string{"a", "b", "c", "d", "e", "f"})
+				return &t_api.Request{Kind: t_api.CreateCallback, CreateCallback: &t_api.CreateCallbackRequest{
+					PromiseId: id, RootPromiseId: root, Timeout: w.now + 40, Recv: recvOf(r)}}
+			case x < 14:
+				return &t_api.Request{Kind: t_api.CreateSubscription, CreateSubscription: &t_api.CreateSubscriptionRequest{
+					Id: pick(r, []string{"s1", "s2"}), PromiseId: id, Timeout: w.now + 40, Recv: recvOf(r)}}
+			case x < 17:
+				return &t_api.Request{Kind: t_api.CompletePromise, CompletePromise: &t_api.CompletePromiseRequest{
+					Id: id, State: promise.Resolved, Value: promise.Value{Data: smallData(r)}}}
+			default:
+				return taskGen(w)
+			}
+		},
+	}
 	families["tasks-crash"] = &family{
 		name: "tasks-crash", bgs: []string{"TimeoutPromises", "EnqueueTasks", "TimeoutTasks"}, requests: 18, maxSteps: 55, fault: 0.04, crash: 0.07,
 		timeStep: smallStep, fifo: true, senderOK: 0.6, config: baseConfig, gen: taskGen,
@@ -396,7 +428,15 @@ func init() {
 	// ---- converge (C11): a scenario of every kind of state, then a long quiet phase ----
 	families["converge"] = &family{
 		name: "converge", bgs: []string{"TimeoutPromises", "EnqueueTasks", "TimeoutTasks", "TimeoutLocks", "SchedulePromises"}, requests: 16, maxSteps: 40,
-		fault: 0.08, crash: 0.03, timeStep: smallStep, fifo: true, senderOK: 0.5, drainTicks: 70,
+		// mostly small steps, now and then a jump over one or two schedule occurrences (so that schedules are due
+		// when the quiet phase begins and have to be caught up)
+		fault: 0.08, crash: 0.03, fifo: true, senderOK: 0.5, drainTicks: 70,
+		timeStep: func(w *world) int64 {
+			if w.r.chance(0.12) {
+				return int64(pick(w.r, []int{700, 1000, 1400, 2600}))
+			}
+			return smallStep(w)
+		},
 		config: func(r *rng) *system.Config {
 			c := baseConfig(r)
 			if r.chance(0.5) {
@@ -414,7 +454,9 @@ func init() {
 				return &t_api.Request{Kind: t_api.AcquireLock, AcquireLock: &t_api.AcquireLockRequest{ResourceId: res, ExecutionId: pick(r, []string{"e1", "e2"}), ProcessId: "p1", Ttl: pick(r, []int64{1, 3, 8})}}
 			default:
 				return &t_api.Request{Kind: t_api.CreateSchedule, CreateSchedule: &t_api.CreateScheduleRequest{
-					Id: pick(r, []string{"s1", "s2"}), Cron: pick(r, []string{"* * * * * *", "@every 3s"}), PromiseId: "{{.id}}.{{.timestamp}}", PromiseTimeout: 5}}
+					Id: pick(r, []string{"s1", "s2"}), Cron: pick(r, []string{"* * * * * *", "@every 3s"}), PromiseId: "{{.id}}.{{.timestamp}}", PromiseTimeout: 5,
+					// some schedules fire routed promises (an invocation task is born with each occurrence)
+					PromiseTags: pick(r, []map[string]string{nil, nil, {"resonate:invoke": "poll://g/i"}})}}
 			}
 		},
 	}
